@@ -214,6 +214,8 @@ def check(group, which, bs, n, cut):
 for _i in range(0, len(CURATED), 4):
     add_group('curated_%d' % (_i // 4), CURATED[_i:_i + 4], 'quick', 4, 1200)
 add_group('multibyte', MB, 'quick', 5, 900)
+_E = ('cat', ('set', (0xC3,)), ('set', (0xA9,)))
+add_group('multibyte_plus', [(('cat', _E, ('star', _E)), u'\xe9+')], 'quick', 5, 900)
 _ops1 = build(1)
 _ops2 = build(2)
 for _i in range(0, len(_ops1), 10):
